@@ -346,12 +346,17 @@ def run(tier):
               'overwritten; shared with C06.R8)', sub6)
     sub9b = Check('C09', 'proof', tier, [], [])
     chk.guard(c09.rule_r4, sub9b, prog)
-    Check.restrict(sub9b, lambda wh, what: str(what) == 'cmd'
-                   or 'REMAINDER' in str(what))
     chk.adopt('C01.R11', 'the command that is run is the command that was '
-              'given: the positional "cmd" takes the remainder of the '
-              'command line verbatim, none of its arguments is consumed as '
-              'a ddSMT option (shared with C09.R4)', sub9b)
+              'given, compared as configured: the positional "cmd" takes '
+              'the remainder of the command line verbatim, and the '
+              'comparison options (--ignore-*, --match-*, --timeout*) have '
+              'the types, defaults and destinations the checker reads '
+              '(shared with C09.R4)', sub9b)
+    from .. import streams
+    chk.guard(streams.report, chk, prog, 'C01.R15',
+              'the run record carries each stream under its own name (by '
+              'position in the declared field order)',
+              'the comparison the user configured for one stream is applied to the other: the output file does not reproduce the golden behaviour under the configured comparison')
     from .. import genreuse
     chk.guard(genreuse.rule, chk, prog, 'C01.R9',
               'what the writers render is consumed once: no one-shot '
